@@ -142,6 +142,7 @@ type Mgr struct {
 	closeInvokedAt time.Duration
 	nodeSrv        map[uint32]int
 	rawNodes       []*gorums.RawNode // captured by the setup task (the driver must not call into the library)
+	baseRoles      map[string]bool   // roles of the library goroutines that exist once the manager is set up
 }
 
 // CfgRec is one configuration of a manager.
@@ -362,6 +363,12 @@ func (w *World) setupManager(m *Mgr) {
 	}
 	for _, n := range m.mgr.Nodes() {
 		m.rawNodes = append(m.rawNodes, n.RawNode)
+	}
+	m.baseRoles = map[string]bool{}
+	for n, r := range w.sched.LiveRoles() {
+		if strings.HasPrefix(n, m.Name+"/") && strings.Contains(n, ".go:") {
+			m.baseRoles[r] = true
+		}
 	}
 	m.ready = true
 	m.readyA.Store(true)
